@@ -351,6 +351,17 @@ func (g *gen) genC15() {
 		{"prefixouter", "param_1", fill("innerParam_2", false)},
 		{"prefixswap", "innerParam_0", fill("param_0", false)},
 		{"universe", "string", fill("nil", false)},
+		// the outer name again further right in the inner list: renamed to innerParam_<its index> first
+		{"crosslater", "a", func(m int) []string {
+			ns := append([]string{}, []string{"_", "b", "c", "d"}[:m]...)
+			ns[m-1] = "a"
+			return ns
+		}},
+		{"crossprefix", "a", func(m int) []string {
+			ns := append([]string{}, []string{"innerParam_1", "innerParam_3", "c", "d"}[:m]...)
+			ns[m-1] = "a"
+			return ns
+		}},
 	}
 	for i, u := range uns {
 		ms := []int{i%4 + 1, (i+2)%4 + 1}
